@@ -234,12 +234,16 @@ def probe(ctx, cal, m, cfg, ns, stride, rng, sb, light=False):
     if not light and len(m.bd) > 60:
         for i in (0, 1, 3, 7, len(m.bd) - 1, len(m.bd) - 2, len(m.bd) - 5):
             t = m.bd[i]
-            for n in (-2, -5, -9, -40, 2, 5, 9, 40):
+            for n in (-2, -5, -9, -40, 2, 4, 5, 9, 40, -4):
                 sb.reset()
                 mon['add_nth_bday'] += 1
                 try:
                     got = cal.add(t, n)
-                except Exception:
+                except Exception as e_:
+                    if 0 <= i + n < len(m.bd):
+                        # the n-th business day lies inside the range (possibly on its very last day): there is nothing to refuse
+                        ctx.fail('add_nth_bday', 'add(%s, %d) raised %s although business day #%d of %d lies inside the calendar range [%s, %s]; cfg=%s' % (t, n, core.exc_str(e_), i + n, len(m.bd), m.t0.date(), m.t1.date(), _brief(cfg)))
+                        return False
                     continue
                 if 0 <= i + n < len(m.bd):
                     okk = got == m.bd[i + n]
